@@ -10,7 +10,7 @@ use std::ops::Range;
 use std::pin::Pin;
 use std::sync::{Arc, Mutex};
 use std::task::{Context, Poll};
-use std::time::{Duration, SystemTime};
+use std::time::SystemTime;
 
 pub type BoxError = Box<dyn std::error::Error + Send + Sync>;
 
@@ -170,13 +170,10 @@ impl<D: ChunkData> ScriptedEntity<D> {
             _ => None,
         };
         let mtime = match ent["mt"]["k"].as_str() {
-            Some("t") => Some(
-                SystemTime::UNIX_EPOCH
-                    + Duration::new(
-                        ent["mt"]["s"].as_u64().unwrap(),
-                        ent["mt"]["ns"].as_u64().unwrap() as u32,
-                    ),
-            ),
+            Some("t") => Some(crate::common::systime(
+                ent["mt"].get("sr").and_then(|v| v.as_i64()).unwrap_or_else(|| ent["mt"]["s"].as_i64().unwrap()),
+                ent["mt"]["ns"].as_u64().unwrap() as u32,
+            )),
             _ => None,
         };
         let hdrs = ent["hdrs"]
@@ -255,7 +252,9 @@ impl<D: ChunkData> ScriptedStream<D> {
                     ('e', 0, false, false)
                 }
             }
-            "fail" => ('f', 0, false, false),
+            // "failfail": the stream keeps failing on every further poll (like a file stream that
+            // retries its read), instead of staying finished after its first error
+            "fail" | "failfail" => ('f', 0, false, false),
             "stall" => ('s', 0, false, false),
             _ => ('e', 0, false, false),
         }
@@ -311,6 +310,7 @@ impl<D: ChunkData> Stream for ScriptedStream<D> {
                 (explicit + tail_items + extra, Some(explicit + tail_items + extra))
             }
             "fail" => (explicit + 1, Some(explicit + 1)),
+            "failfail" => (explicit + 1, None),
             "stall" => (explicit, None),
             _ => (explicit, Some(explicit)),
         }
@@ -356,7 +356,7 @@ impl<D: ChunkData> Stream for ScriptedStream<D> {
                 Poll::Pending
             }
             'f' => {
-                this.finished = true;
+                this.finished = this.script.tail != "failfail" || from_items;
                 ev(&mut l, "fail", 0);
                 this.publish_next(&mut l);
                 Poll::Ready(Some(Err("scripted entity failure".into())))
